@@ -17,8 +17,10 @@ ASSUMPTIONS = [
     "configurations with a refreshing Read handler are judged on the Read clauses only (the refresh legitimately overrides the written value)",
 ]
 
-KINDS = ("text", "number", "switch", "light", "blob")
-WRITE_CFG = [(), (("plain", False),), (("plain", True),), (("coro", False),), (("plain", False), ("plain", True)), (("plain", False), ("coro", False)), (("coro", False), ("plain", True))]
+KINDS = ("text", "number", "switch", "switch-oneofmany", "light", "blob")
+WRITE_CFG = [(), (("plain", False),), (("plain", True),), (("coro", False),), (("plain", False), ("plain", True)), (("plain", False), ("coro", False)), (("coro", False), ("plain", True)),
+             # a plain handler that vetoes the default and assigns the value "the hardware really accepted"
+             (("plain-nested", True),), (("plain", False), ("plain-nested", True))]
 CHANGE_CFG = [(), ("plain",), ("coro",), ("plain", "coro")]
 READ_CFG = [(), (("plain", False),), (("plain", True),), (("coro", False),)]
 PATHS = ("client", "set_value", "assign")
@@ -32,6 +34,8 @@ def values_for(kind):
         return 1.0, 2.5, 3.25, 9.75
     if kind == "switch":
         return "Off", "On", "Off", "On"
+    if kind == "switch-oneofmany":
+        return "On", "Off", "On", "On"  # A is the only selected switch: writing Off is overruled by the rule
     if kind == "light":
         return "Ok", "Busy", "Alert", "Idle"
     return None, ("ab", ".x"), ("cd", ".y"), ("zz", ".r")
@@ -46,6 +50,10 @@ def shards(tier, seed):
             for wi in range(len(WRITE_CFG)):
                 sh.append((tier, kind, path, wi))
     return sh
+
+
+def nested_value(kind):
+    return {"text": "n3", "number": 7.5, "switch": "On", "switch-oneofmany": "On", "light": "Alert", "blob": ("nn", ".n")}[kind]
 
 
 def peek(el):
@@ -91,9 +99,12 @@ def execute(kind, path, wcfg, ccfg, rcfg, both, seq, switch_rule="AnyOfMany"):
         if kind == "number":
             for e in els:
                 e.update(format="%.2f", min=0, max=100, step=0)
-        vec = dict(attr="v", kind=kind, name="V", elements=els)
+        vec = dict(attr="v", kind=kind.split("-")[0], name="V", elements=els)
         if kind == "switch":
             vec["rule"] = switch_rule
+        if kind == "switch-oneofmany":
+            vec["rule"] = "OneOfMany"
+            els[1]["default"] = "Off"
         spec = dict(name="DEV", groups=[dict(attr="g", name="G", vectors=[vec])])
 
         def handlers(defs):
@@ -108,6 +119,13 @@ def execute(kind, path, wcfg, ccfg, rcfg, both, seq, switch_rule="AnyOfMany"):
                         log.append(("W", i, "plain", event.element.name, peek(event.element), peekv(event.new_value), len(published)))
                         if veto:
                             event.prevent_default = True
+
+                elif style == "plain-nested":
+
+                    def h(self, event, i=i):
+                        log.append(("W", i, "plain", event.element.name, peek(event.element), peekv(event.new_value), len(published)))
+                        event.prevent_default = True
+                        event.element.value = mkval(nested_value(kind))
 
                 else:
 
@@ -162,7 +180,7 @@ def execute(kind, path, wcfg, ccfg, rcfg, both, seq, switch_rule="AnyOfMany"):
                     elif kind == "number":
                         ch = one_parts.OneNumber(name="A", value="%.2f" % want)
                         msg = M.NewNumberVector(device="DEV", name="V", children=[ch])
-                    elif kind == "switch":
+                    elif kind in ("switch", "switch-oneofmany"):
                         ch = one_parts.OneSwitch(name="A", value=want)
                         msg = M.NewSwitchVector(device="DEV", name="V", children=[ch])
                     else:
@@ -224,7 +242,7 @@ def judge(kind, path, wcfg, ccfg, rcfg, both, seq, obs):
     fails = []
     default, v1, v2, refresh = values_for(kind)
     refreshing = any(style == "plain" and refr for style, refr in rcfg)
-    d = "kind=%s,path=%s" % (kind, path)
+    d = "kind=%s,path=%s%s" % (kind, path, ",nested-assignment" if any(st == "plain-nested" for st, _ in wcfg) and path != "assign" else "")
     for op in obs["ops"]:
         if op["exc"] is not None:
             from mc import lib
@@ -235,6 +253,15 @@ def judge(kind, path, wcfg, ccfg, rcfg, both, seq, obs):
         wlog = [e for e in op["log"] if e[0] == "W"]
         clog = [e for e in op["log"] if e[0] == "C"]
         veto = any(style == "plain" and v for style, v in wcfg) and path != "assign"
+        nested = any(style == "plain-nested" for style, v in wcfg) and path != "assign"
+        requested = want
+        if nested:
+            # the handler vetoes the requested value and assigns another one: that nested assignment must behave
+            # like any driver-side assignment (one publication, Change iff changed, no Write event)
+            veto = False
+            want = nested_value(kind)
+        if kind == "switch-oneofmany" and want == "Off":
+            want = "On"  # B is never selected here: the rule keeps the only selected switch On
         # --- Write handlers
         if path == "assign":
             if wlog:
@@ -246,10 +273,11 @@ def judge(kind, path, wcfg, ccfg, rcfg, both, seq, obs):
                     fails.append(("write-handler-count", d + ",style=%s" % style, "Write handler %d invoked %d times: %r" % (i, len(calls), wlog)))
                     continue
                 c = calls[0]
-                if c[5] != want:
-                    fails.append(("write-handler-value", d, "Write handler saw new_value %r, requested %r" % (c[5], want)))
-                if style == "plain":
-                    if c[4] != pre or c[6] != 0:
+                if c[5] != requested:
+                    fails.append(("write-handler-value", d, "Write handler saw new_value %r, requested %r" % (c[5], requested)))
+                if style in ("plain", "plain-nested"):
+                    nested_before = nested and any(st == "plain-nested" for st, _ in wcfg[:i])
+                    if (c[4] != pre or c[6] != 0) and not nested_before:
                         fails.append(("write-after-change", d, "plain Write handler ran after a state change: element=%r (pre %r), %d messages already published" % (c[4], pre, c[6])))
                     if c not in op["sync_log"]:
                         fails.append(("plain-handler-deferred", d, "plain Write handler did not run synchronously"))
